@@ -96,6 +96,9 @@ impl Property for C09 {
             };
             for t in &case.texts {
                 let text = render_pieces(&keys, t);
+                if f7_guard(&mut rep, &case.dic, cfg, &text, ctx.strict) {
+                    continue;
+                }
                 // path-rewrite plugins read fields of their own (C11 speaks about configurations without them): the
                 // second pass always loads everything
                 let sub = if pass == 1 { None } else { case.subset.map(|b| sudachi::dic::subset::InfoSubset::from_bits_truncate(b as u32)) };
